@@ -1,5 +1,6 @@
 (* C05_E4.v — engine E4 for C05: CONTROLLED multi-vCPU replay of the life-cycle model.
-   EXECUTABLE DEFINITIONS ONLY (lemmas: C05_E4Proofs.v).
+   EXECUTABLE DEFINITIONS ONLY (lemmas: C05_E4Proofs.v).  Line numbers: thread/thread.cpp at /repo adaeb93
+   (commit 34f175e/598bacc shift everything after thread_interrupt by +14).
 
    The replay harness (harness/C05/e4_main.cpp) can stop the real scheduler only at GATES: between
    two ops of a thread program, in the (replaced) loop of the idler, and — through the hook
